@@ -589,3 +589,54 @@ impl From<bool> for State {
         }
     }
 }
+
+/// Observable protocol state for external verification harnesses.
+#[cfg(feature = "verif")]
+#[derive(Debug, Clone, PartialEq)]
+pub struct VerifProbe {
+    /// Name of the protocol state
+    pub state: &'static str,
+    /// `is_connected()` of the MQTT client
+    pub connected: bool,
+    /// `can_publish(QoS::AtLeastOnce)` of the MQTT client
+    pub can_publish: bool,
+    /// Whether a response topic is cached for the pending multipart
+    pub response_topic: bool,
+    /// Whether correlation data is cached for the pending multipart
+    pub correlation_data: bool,
+    /// Root depth of the pending node iterator
+    pub iter_root: usize,
+    /// Current depth of the pending node iterator
+    pub iter_depth: usize,
+}
+
+#[cfg(feature = "verif")]
+impl<'a, Settings, Stack, Clock, Broker, const Y: usize>
+    MqttClient<'a, Settings, Stack, Clock, Broker, Y>
+where
+    Settings: TreeKey + TreeSerialize + TreeDeserializeOwned,
+    Stack: TcpClientStack,
+    Clock: embedded_time::Clock + Clone,
+    Broker: minimq::Broker,
+{
+    /// Read the protocol state without changing it.
+    pub fn verif_probe(&mut self) -> VerifProbe {
+        VerifProbe {
+            state: match self.state.state() {
+                sm::States::Connect => "Connect",
+                sm::States::Alive => "Alive",
+                sm::States::Subscribe => "Subscribe",
+                sm::States::Wait => "Wait",
+                sm::States::Init => "Init",
+                sm::States::Multipart => "Multipart",
+                sm::States::Single => "Single",
+            },
+            connected: self.mqtt.client().is_connected(),
+            can_publish: self.mqtt.client().can_publish(QoS::AtLeastOnce),
+            response_topic: self.pending.response_topic.is_some(),
+            correlation_data: self.pending.correlation_data.is_some(),
+            iter_root: self.pending.iter.root_depth(),
+            iter_depth: self.pending.iter.current_depth(),
+        }
+    }
+}
